@@ -830,11 +830,25 @@ int ys_scan(ys_rules* r, ys_scanner* s, const uint8_t* data, size_t len,
   switch (o->entry)
   {
   case YS_SCAN_MEM:
+  {
+    /* scan an exact-size heap copy: the caller's buffer (a std::string) has a
+     * terminating NUL and spare capacity that would hide a read past the end
+     * from AddressSanitizer */
+    uint8_t* exact = (uint8_t*) malloc(len);
+    if (exact == NULL && len > 0)
+    {
+      rc = -3;
+      break;
+    }
+    if (len > 0)
+      memcpy(exact, data, len);
     if (s)
-      rc = yr_scanner_scan_mem(s->s, data, len);
+      rc = yr_scanner_scan_mem(s->s, exact, len);
     else
-      rc = yr_rules_scan_mem(r->r, data, len, o->flags, scan_cb, &sc, o->timeout);
+      rc = yr_rules_scan_mem(r->r, exact, len, o->flags, scan_cb, &sc, o->timeout);
+    free(exact);
     break;
+  }
   case YS_SCAN_FILE:
   case YS_SCAN_FD:
   {
@@ -867,6 +881,11 @@ int ys_scan(ys_rules* r, ys_scanner* s, const uint8_t* data, size_t len,
   {
     blk_ctx bc;
     memset(&bc, 0, sizeof(bc));
+    uint8_t* exact = (uint8_t*) malloc(len);
+    if (exact != NULL && len > 0)
+      memcpy(exact, data, len);
+    if (exact != NULL || len == 0)
+      data = exact;
     bc.data = data;
     bc.len = len;
     bc.o = o;
@@ -899,6 +918,7 @@ int ys_scan(ys_rules* r, ys_scanner* s, const uint8_t* data, size_t len,
           break;
       }
     }
+    free(exact);
     break;
   }
   default:
